@@ -278,7 +278,7 @@ pub fn run(ctx: &mut Ctx) {
             }
         }
     }
-    let n = ctx.n(60_000, 10_000_000);
+    let n = ctx.n(90_000, 10_000_000);
     random_cases!(ctx, n, |r, _i| {
         let flags = gen_flags(&mut r, ClvmFlags::all());
         let mut cfg = ProgCfg::full(flags);
